@@ -15,7 +15,7 @@ Not decided: replay over whole histories (it is the consequence of N1, which is 
 import re
 
 from facts import short_name, ADAPTERS, TRY_BRANCH, place_local
-from kinds import (comparisons, result_blocks, k1_callers, on_all_success_paths, error_cut)
+from kinds import (exhaustive_loops, comparisons, result_blocks, k1_callers, on_all_success_paths, error_cut)
 
 CRATES = ["astria_sequencer.lib"]
 S = "astria_sequencer::"
@@ -126,6 +126,9 @@ def run(prog, rep):
 # ----------------------------------------------------------------------------------------------
 def n1(prog, rep):
     body = prog.main_body(CTX)
+    exhaustive_loops(rep, "N1", body, r"self\.actions", 1, "the transaction's actions",
+                     "the transaction would be reported executed (nonce consumed, fees paid) "
+                     "although later actions never ran", ok_only=True)
     cm = [c for c in comparisons(body) if c.op == "Eq"
           and re.search(r"^get_account_nonce\(state,address_bytes\(self\)\)", c.a + "|" + c.b)
           and ("nonce(self.params)" in c.a + c.b)]
